@@ -25,13 +25,17 @@
        drift  notes that are not violations (permitted alternatives taken, stricter limits).  *)
 EXTENDS HttpFraming, TraceBatch
 
-VARIABLES tid, l, stage, s, bad, devs, drift
-tvars == <<tid, l, stage, s, bad, devs, drift>>
+VARIABLES tid, l, stage, s, s2, bad, devs, drift
+tvars == <<tid, l, stage, s, s2, bad, devs, drift>>
 
 Stream(t) == Batch[t].stream
 TCfg(t) == Cfg(t)
 RefCfg(c) == [mode |-> c.mode, lax |-> c.lax, maxLine |-> c.maxLine, maxField |-> c.maxField,
-              maxHeaders |-> c.maxHeaders, untilEof |-> c.untilEof, withBody |-> c.withBody, mutant |-> ""]
+              maxHeaders |-> c.maxHeaders, untilEof |-> c.untilEof, withBody |-> c.withBody, mutant |-> "",
+              devHeadSkip |-> FALSE]
+\* second reading with the HEAD deviation enabled: used only when the strict reading does not explain
+\* an execution, to name the deviation exactly (known_findings protocol, DESIGN 2.5)
+DevCfg(c) == [RefCfg(c) EXCEPT !.devHeadSkip = TRUE]
 
 (* ------------------------------------------------------------------------ *)
 SoftNames(st, kind) == LET x == Softs(st, kind) IN [i \in 1..Len(x) |-> x[i].name]
@@ -207,7 +211,7 @@ JudgeParse(st, q, n, e, cfg) ==
 \* parse the bytes the server wrote with the reference in strict response mode;
 \* heads[i] = the i-th response answers a HEAD request (no body)
 WCfg(head) == [mode |-> "response", lax |-> FALSE, maxLine |-> 65536, maxField |-> 65536, maxHeaders |-> 1000,
-               untilEof |-> FALSE, withBody |-> ~head, mutant |-> ""]
+               untilEof |-> FALSE, withBody |-> ~head, mutant |-> "", devHeadSkip |-> FALSE]
 RECURSIVE RunOneMsg(_, _, _, _, _)
 RunOneMsg(st, w, n, c, k) ==     \* run until message k is complete or the reader is stuck
     IF Stuck(st) \/ Len(st.msgs) >= k THEN st ELSE RunOneMsg(Step(st, w, n, c), w, n, c, k)
@@ -270,6 +274,7 @@ JudgeConn(st, q, n, e, cfg) ==
         ELSE res("ConnForeignException", <<>>, <<e.loopExc[1]>>)
     ELSE IF Final(w, Len(e.written)) \in {"reject", "truncated", "undecided"}
         THEN res("ServerOutputMalformed", <<>>, <<w.reason>>)       \* what the server wrote is itself well-framed
+    ELSE IF fin = "reject" /\ st.over /\ st.between /\ nerr = 0 THEN res("", <<"LimitByCallPosition">>, <<>>)
     ELSE IF dc # "" THEN res(dc, <<>>, <<>>)
     ELSE IF fin = "undecided" THEN res("", <<>>, <<"undecided">>)
     ELSE IF fin = "reject" /\ nerr = 0 /\ ~e.closed /\ (PendingReject(st, q, n) \/ PendingOver(st, q, n, e, cfg))
@@ -292,15 +297,23 @@ JudgeConn(st, q, n, e, cfg) ==
             ELSE IF st.phase = "tunnel" THEN res("", <<>>, <<"tunnel">>)
             ELSE res("ValidAnsweredWithError", <<>>, <<>>)
         ELSE IF Len(D) < Len(R) /\ ~(st.phase = "tunnel") THEN
-            IF KillerSoft(st) /\ Len(codes) = Len(D) /\ ~e.closed THEN res("", <<"BadAuthorityKillsHandler">>, <<>>)
+            IF (KillerSoft(st) \/ (e.taskExc # "" /\ R[Len(D) + 1].target[1] # 47)) /\ Len(codes) = Len(D) /\ ~e.closed
+            THEN res("", <<"BadAuthorityKillsHandler">>, <<>>)
             ELSE IF Len(st.soft) > 0 THEN res("", <<>>, <<"SoftZone">>)
             ELSE res("RequestNotDispatched", <<>>, <<>>)
         ELSE IF Len(codes) < Len(R) /\ ~(st.phase = "tunnel") THEN
             IF Len(st.soft) > 0 THEN res("", <<>>, <<"SoftZone">>) ELSE res("RequestNotAnswered", <<>>, <<>>)
         ELSE res("", devNames, altNames)
 
-Judge(st, q, n, e, cfg) ==
+Judge1(st, q, n, e, cfg) ==
     IF e.kind = "conn" THEN JudgeConn(st, q, n, e, cfg) ELSE JudgeParse(st, q, n, e, cfg)   \* "parse" and "client"
+\* st = strict reading, st2 = reading with the HEAD deviation (only differs if the stream has a HEAD
+\* request that announces a body)
+Judge(st, st2, q, n, e, cfg) ==
+    LET j == Judge1(st, q, n, e, cfg)
+    IN IF j.bad = "" \/ ~st.headBody THEN j
+       ELSE LET k == Judge1(st2, q, n, e, cfg)
+            IN IF k.bad = "" THEN [k EXCEPT !.devs = <<"HeadRequestBodySkipped">> \o k.devs] ELSE j
 
 (* ------------------------------------------------------------------------ *)
 (* C03: the outcomes of one stream under different segmentations agree.      *)
@@ -332,6 +345,7 @@ GroupClause(st, q, n, evs, cfg) ==
        ELSE IF dis /\ ~diff /\ ~pre /\ PendingReject(st, q, n) THEN [bad |-> "", devs |-> <<>>]   \* noticed early vs. still pending
        ELSE IF dis /\ ~diff /\ ~pre /\ \A i \in 1..N : ~vd[i] => PendingOver(st, q, n, evs[i], cfg)
             THEN [bad |-> "", devs |-> <<>>]                                                       \* one read of slack
+       ELSE IF st.headBody THEN [bad |-> "", devs |-> <<"HeadRequestBodySkipped">>]
        ELSE IF dis /\ ((st.phase = "closed" /\ st.tailFrom <= n) \/ \E i \in 1..Len(evs) : evs[i].excAfterClose)
             THEN [bad |-> "", devs |-> <<"DataAfterCloseSegDependent">>]
        ELSE IF dis /\ st.reason \in {"ChunkDataCRCRLF", "TrailerLeadingCR"} THEN [bad |-> "", devs |-> <<"LaxChunkCRSegDependent">>]
@@ -343,13 +357,13 @@ GroupClause(st, q, n, evs, cfg) ==
              devs |-> <<>>]
 
 (* ------------------------------------------------------------------------ *)
-StepsPerState == 12
+StepsPerState == 8
 RECURSIVE RunK(_, _, _, _, _)
 RunK(st, q, n, c, k) == IF k = 0 \/ Stuck(st) THEN st ELSE RunK(Step(st, q, n, c), q, n, c, k - 1)
 
 TInit ==
     /\ tid \in 1..NTraces
-    /\ l = 0 /\ stage = "ref" /\ s = Init0 /\ bad = "" /\ devs = <<>> /\ drift = <<>>
+    /\ l = 0 /\ stage = "ref" /\ s = Init0 /\ s2 = Init0 /\ bad = "" /\ devs = <<>> /\ drift = <<>>
     /\ Verdict(tid, 0, "", <<>>)
 
 TNext ==
@@ -359,26 +373,31 @@ TNext ==
            c == TCfg(tid)
        IN
        \/ /\ stage = "ref"
-          /\ IF Stuck(s) THEN stage' = "judge" /\ s' = s
+          /\ IF Stuck(s) THEN stage' = (IF s.headBody THEN "ref2" ELSE "judge") /\ s' = s
              ELSE stage' = "ref" /\ s' = RunK(s, q, n, RefCfg(c), StepsPerState)
-          /\ UNCHANGED <<tid, l, bad, devs, drift>>
+          /\ UNCHANGED <<tid, l, s2, bad, devs, drift>>
+          /\ Verdict(tid, 0, "", <<devs, drift>>)
+       \/ /\ stage = "ref2"
+          /\ IF Stuck(s2) THEN stage' = "judge" /\ s2' = s2
+             ELSE stage' = "ref2" /\ s2' = RunK(s2, q, n, DevCfg(c), StepsPerState)
+          /\ UNCHANGED <<tid, l, s, bad, devs, drift>>
           /\ Verdict(tid, 0, "", <<devs, drift>>)
        \/ /\ stage = "judge" /\ l < NEvents(tid)
           /\ LET e == Events(tid)[l + 1]
-                 j == Judge(s, q, n, e, c)
+                 j == Judge(s, s2, q, n, e, c)
                  d2 == devs \o [i \in 1..Len(j.devs) |-> <<l + 1, j.devs[i]>>]
                  f2 == IF Len(drift) < 6 THEN drift \o [i \in 1..Len(j.drift) |-> <<l + 1, j.drift[i]>>] ELSE drift
                  l2 == IF j.bad = "" THEN l + 1 ELSE l
              IN /\ bad' = j.bad /\ devs' = d2 /\ drift' = f2 /\ l' = l2
                 /\ Verdict(tid, l2, j.bad, <<d2, f2>>)
-          /\ UNCHANGED <<tid, stage, s>>
+          /\ UNCHANGED <<tid, stage, s, s2>>
        \/ /\ stage = "judge" /\ l = NEvents(tid)
           /\ LET g == GroupClause(s, q, n, Events(tid), c)
                  d2 == devs \o [i \in 1..Len(g.devs) |-> <<0, g.devs[i]>>]
              IN /\ bad' = g.bad /\ devs' = d2
                 /\ Verdict(tid, IF g.bad = "" THEN l ELSE 0, g.bad, <<d2, drift>>)
           /\ stage' = "end"
-          /\ UNCHANGED <<tid, l, s, drift>>
+          /\ UNCHANGED <<tid, l, s, s2, drift>>
 
 TSpec == TInit /\ [][TNext]_tvars
 
